@@ -11,7 +11,7 @@ use crate::infra::driver::{block_on_budget, poll_budget};
 use crate::infra::gen;
 use crate::infra::mock::{drain_body, Recorded};
 use crate::infra::runner::*;
-use crate::infra::script::{BodyProbe, BodyStep, ScriptBody, POLL_AFTER_END_TRIP};
+use crate::infra::script::{BodyProbe, BodyStep, ScriptBody, SegBody, POLL_AFTER_END_TRIP};
 use crate::infra::wire;
 use crate::svc::vt;
 use crate::{bail, ensure};
@@ -578,35 +578,6 @@ struct Inner {
     resp: Arc<Mutex<Option<Response<SegBody>>>>,
 }
 
-/// The scripted body with every DATA chunk presented as a non-contiguous `Buf` of two segments: a transport is
-/// free to hand over any `Buf`, not only `Bytes`.
-struct SegBody {
-    inner: ScriptBody,
-    seg: u8,
-}
-impl Body for SegBody {
-    type Data = bytes::buf::Chain<Bytes, Bytes>;
-    type Error = Status;
-    fn poll_frame(mut self: Pin<&mut Self>, cx: &mut Context<'_>) -> Poll<Option<Result<http_body::Frame<Self::Data>, Status>>> {
-        let seg = self.seg as usize;
-        Pin::new(&mut self.inner).poll_frame(cx).map(|o| {
-            o.map(|r| {
-                r.map(|f| {
-                    f.map_data(|mut d: Bytes| {
-                        let tail = d.split_off(d.len() * seg / 256);
-                        bytes::Buf::chain(d, tail)
-                    })
-                })
-            })
-        })
-    }
-    fn is_end_stream(&self) -> bool {
-        self.inner.is_end_stream()
-    }
-    fn size_hint(&self) -> http_body::SizeHint {
-        self.inner.size_hint()
-    }
-}
 impl<B> Service<Request<B>> for Inner
 where
     B: Body + 'static,
@@ -691,7 +662,7 @@ fn script(c: &Case, chunks_all: &[Vec<u8>]) -> Script {
 fn inner_for(c: &Case, sc: &Script) -> (Inner, BodyProbe) {
     let body = ScriptBody::new(sc.steps.clone());
     let probe = body.probe.clone();
-    let mut resp = Response::new(SegBody { inner: body, seg: c.seg });
+    let mut resp = Response::new(SegBody::new(body, c.seg));
     let ct = match c.ct {
         0 => if c.plain_ct { "application/grpc-web" } else { "application/grpc-web+proto" },
         k => RESP_CTS[(k as usize - 1) % RESP_CTS.len()],
@@ -763,7 +734,9 @@ fn observe_body(c: &Case, sc: &Script) -> Result<BodyObs, Failure> {
     let (parts, body) = resp.into_parts();
     let mut body = Box::pin(body);
     let budget = sc.steps.len() + 8;
-    let max_events = sc.chunks.len() + 8;
+    // every frame handed out consumes at least a 5-byte frame header of the input (a body may hold many frames per
+    // chunk, e.g. further data/trailers frames behind the first trailers frame)
+    let max_events = sc.chunks.len() + sc.chunks.iter().map(|c| c.len()).sum::<usize>() / 5 + 8;
     let mut evs: Vec<Ev> = vec![];
     let mut after_end = 0usize;
     loop {
@@ -943,7 +916,7 @@ fn judge_body(f: &Facts, obs: &BodyObs) -> Result<(), Failure> {
                 describe()
             ),
             EvK::Stuck => bail!(format!("C17/does-not-complete/{}", why.unwrap_or(cname)), "body did not produce a frame within the poll budget; frames so far: {}", describe()),
-            EvK::Flood => bail!(format!("C17/frame-flood/{}", why.unwrap_or(cname)), "more frames than chunks + 8: {}", describe()),
+            EvK::Flood => bail!(format!("C17/frame-flood/{}", why.unwrap_or(cname)), "more frames than the input can explain (chunks + bytes/5 + 8): {}", describe()),
             _ if totality_only => {}
             _ if ended => {
                 ensure!(
